@@ -271,10 +271,20 @@ class Pair:
         return out
 
     def model(self, lines, **kw):
+        """the model driver; an operation on which it dies (stack overflow on input derived from a mutated implementation's
+        output) or hangs yields 'model-crash' / 'model-timeout' for that line: the tie then breaks on it, the run goes on"""
         rc, out, err = self._run(self.drv, lines, **kw)
-        if len(out) != len(lines):
+        if len(out) == len(lines):
+            return out
+        if rc == 0 or len(lines) == 0:
             raise BuildError("pqdriver", "driver produced %d lines for %d ops (rc=%s): %s" % (len(out), len(lines), rc, err[-1000:]))
-        return out
+        k = len(out)
+        self.log("pqdriver died after %d/%d lines (rc=%s): %s | %s" % (k, len(lines), rc, err[-200:], lines[k][:200]))
+        self.mcrashes = getattr(self, "mcrashes", 0) + 1
+        out.append("model-timeout" if rc == -9 else "model-crash")
+        if self.mcrashes > 8:
+            return out + ["model-crash"] * (len(lines) - k - 1)
+        return out + (self.model(lines[k + 1:], **({"timeout": 120} if rc == -9 else kw)) if k + 1 < len(lines) else [])
 
 
 def chunked_parallel(fn, lines, workers=8, chunk=4000):
